@@ -730,7 +730,7 @@ def gen_interval(rng, big=False):
 
 
 def gen_axis_spec(rng, quick, k):
-    big = (k % 17 == 5)
+    big = (k % 17 == 5) and (k % 11 != 3)     # never together with a long series: n * interval must stay inside int64
     x, u = gen_interval(rng, big)
     f = FACT[u]
     mode = "interval" if (big or rng.random() < 0.7) else "rate"
@@ -784,7 +784,10 @@ def gen_concat_spec(rng, k=0):
         shape = (n,) if nd == 1 else (c, n)
         data = [[rng.randint(-99, 99) for _ in range(n)] for _ in range(c)] if nd == 2 else [rng.randint(-99, 99) for _ in range(n)]
         uu = u if rng.random() < 0.8 else rng.choice(["s", "ms", "us"])
-        runs.append({"x": float(x * FACT[u] / FACT[uu]).hex() if rng.random() < 0.9 else gen_interval(rng)[0].hex(), "u": uu,
+        xx = float(x * FACT[u] / FACT[uu])
+        if rng.random() < 0.1:          # a run with another interval (the last one's is kept)
+            xx, uu = gen_interval(rng)
+        runs.append({"x": xx.hex(), "u": uu,
                      "t0": float(rng.randint(-50, 50)).hex(), "data": data, "layout": rng.choice(["C", "C", "F", "strided"])})
     return {"runs": runs}
 
